@@ -30,6 +30,21 @@ def bracket (arange : Nat → List κ) (d : Data κ α) (dim : String) (h : Nat 
                      unf := u.unf.map (fun (p : List Nat × List String) => (setAt p.1 0 n', p.2)) }
   u'.fold
 
+/-- all columns of an (N, M) matrix -/
+def cols (m : Arr α) : List (List α) := (List.range (m.shape.getD 1 0)).map (col m)
+
+/-- rebuild an (N', M) matrix from its columns -/
+def ofCols (n' : Nat) (cs : List (List α)) : Arr α :=
+  Arr.ofFn [n', cs.length] (fun idx => (cs.getD (idx.getD 1 0) []).getD (idx.getD 0 0) default)
+
+/-- unfold(dim); the whole matrix is replaced by H applied to the list of its columns; fold().
+    For steps that are not trace-local (ndalign uses the last trace as reference). -/
+def bracketAll (arange : Nat → List κ) (d : Data κ α) (dim : String) (H : List (List α) → List (List α)) :
+    Except Err (Data κ α) := do
+  let u ← d.unfold arange dim
+  let u' := { u with values := ofCols (u.values.shape.headD 0) (H (cols u.values)) }
+  u'.fold
+
 /-- numpy function applied along the axis of a named dimension (length may change to m) -/
 def mapAlong (d : Data κ α) (dim : String) (h : List α → List α) (m : Nat) (newCoord : Option (List κ)) :
     Except Err (Data κ α) :=
